@@ -54,12 +54,18 @@ def run_oniom(case, ctx):
     low, high = pr.choice([("HF", "CCSD"), ("HF", "FCI"), ("CCSD", "FCI"), ("HF", "HF"), ("CCSD", "CCSD")])
     if n == 6 and "FCI" in (low, high):
         high = "CCSD" if low != "CCSD" else "CCSD"
-    opt = {"basis": "sto-3g"}
+    # callers commonly hand ONE options dictionary to every layer of every fragment: then dict(...) copies are not made here; with a
+    # non-default basis every layer must still be computed in that basis
+    shared = pr.random() < 0.5
+    basis = pr.choice(["3-21g", "6-31g"]) if (n == 4 and (shared or pr.random() < 0.2)) else "sto-3g"
+    opt = {"basis": basis}
+    mkopt = (lambda: opt) if shared else (lambda: dict(opt))
+    ctx.tab("oniom_options", f"{basis}|{'one shared dict' if shared else 'separate dicts'}")
 
     def energy(level, g):
         with warnings.catch_warnings():
             warnings.simplefilter("ignore")
-            mol = SecondQuantizedMolecule(g, q=0, spin=0, basis="sto-3g", frozen_orbitals=None)
+            mol = SecondQuantizedMolecule(g, q=0, spin=0, basis=basis, frozen_orbitals=None)
             if level == "HF":
                 return mol.mf_energy
             return (FCISolver if level == "FCI" else CCSDSolver)(mol).simulate()
@@ -88,8 +94,8 @@ def run_oniom(case, ctx):
                     links.append(Link(model_idx[-1], outside[-1], pr.uniform(0.5, 1.2), "H"))
                 else:
                     links = None
-        system = Fragment(solver_low=low, options_low=dict(opt))
-        model = Fragment(solver_low=high, options_low=dict(opt), solver_high=high, options_high=dict(opt), selected_atoms=sel, broken_links=links)
+        system = Fragment(solver_low=low, options_low=mkopt())
+        model = Fragment(solver_low=high, options_low=mkopt(), solver_high=high, options_high=mkopt(), selected_atoms=sel, broken_links=links)
         try:
             e = ONIOMProblemDecomposition({"geometry": [tuple(x) for x in geom], "fragments": [system, model]}).simulate()
             e_sys = energy(low, geom)
@@ -104,14 +110,14 @@ def run_oniom(case, ctx):
         # (2) model = whole system (atoms listed in any order) -> high-level energy of the whole system
         order = list(range(n))
         pr.shuffle(order)
-        sel2 = order if pr.random() < 0.7 else n
-        system = Fragment(solver_low=low, options_low=dict(opt))
-        model = Fragment(solver_low=low, options_low=dict(opt), solver_high=high, options_high=dict(opt), selected_atoms=sel2)
+        sel2 = pr.choice([order, order, n, None])      # None is documented as "the whole system"
+        system = Fragment(solver_low=low, options_low=mkopt())
+        model = Fragment(solver_low=low, options_low=mkopt(), solver_high=high, options_high=mkopt(), selected_atoms=sel2)
         e = ONIOMProblemDecomposition({"geometry": [tuple(x) for x in geom], "fragments": [system, model]}).simulate()
         e_high = energy(high, geom)
         ctx.check("oniom_whole_system_model", abs(e - e_high) < 2e-6,
                   f"ONIOM with the whole system as model gives {e:.9f}, high-level energy of the whole system is {e_high:.9f}",
-                  dict(wit, selected=sel2, got=e, expected=e_high))
+                  dict(wit, selected=sel2, got=e, expected=e_high, basis=basis, shared_options=shared))
     ctx.nontrivial(("oniom", repr(geom), low, high, repr(sel)))
     ctx.sample({"sub": "oniom", "n_atoms": n, "low": low, "high": high, "model": sel, "links": bool(links)})
 
